@@ -641,6 +641,9 @@ func (x *c03) dischargeSlice(f *ssa.Function, v *ssa.Slice) (string, string) {
 				return why, ""
 			}
 		}
+		if cst, ok := madeAtLeast(v.X); ok && cst >= need {
+			return fmt.Sprintf("Gmake: constant bounds [%d:%d] of a buffer made with length %d + len(…)", lo, hi, cst), ""
+		}
 		return "", fmt.Sprintf("constant slice bounds [%d:%d] without a dominating length guard on the sliced value", lo, hi)
 	}
 	// G2: x[:h] under len(x) >= h, h non-negative
@@ -665,18 +668,25 @@ func (x *c03) dischargeSlice(f *ssa.Function, v *ssa.Slice) (string, string) {
 	}
 	if v.Low != nil && v.High == nil {
 		// G1 cursor loop: n < len(x) passing edge, n non-negative
-		for _, g := range flow.Guards(v) {
-			rl, ok := condRel(g.If.Cond, g.Taken)
-			if !ok {
-				continue
-			}
-			a, isLen := builtinOf(rl.b, "len")
-			if rl.a == v.Low && isLen && a == v.X && rl.op == token.LSS && x.nn.val(v.Low, 0) {
-				return "G1: b[n:] under the loop condition n < len(b), cursor non-negative (0 plus non-negative increments)", ""
-			}
-			a2, isLen2 := builtinOf(rl.a, "len")
-			if rl.b == v.Low && isLen2 && a2 == v.X && rl.op == token.GTR && x.nn.val(v.Low, 0) {
-				return "G1: b[n:] under the loop condition len(b) > n, cursor non-negative", ""
+		if why := x.cursorGuardAt(v, v.X, v.Low); why != "" {
+			return why, ""
+		}
+		// G1 at the callers: buffer and cursor are both handed in to an unexported step helper, and every
+		// library call site stands under the loop condition for the values it passes
+		if bp, ok := v.X.(*ssa.Parameter); ok {
+			if np, ok := v.Low.(*ssa.Parameter); ok && bp.Parent() == f && np.Parent() == f && f.Parent() == nil && (f.Object() == nil || !f.Object().Exported()) {
+				css := x.c.librarySites(f)
+				okAll := len(css) > 0 && len(css) <= 4 && !x.c.addressTaken(f)
+				for _, cs := range css {
+					args := cs.Common().Args
+					bi, ni := paramIndex(f, bp), paramIndex(f, np)
+					if bi >= len(args) || ni >= len(args) || x.cursorGuardAt(cs, args[bi], args[ni]) == "" {
+						okAll = false
+					}
+				}
+				if okAll {
+					return fmt.Sprintf("G1 at the %d call site(s) of %s: b[n:] of the buffer and cursor handed in, each call under the loop condition n < len(b) with a non-negative cursor", len(css), f.Name()), ""
+				}
 			}
 		}
 		// Gwrite: b[wn:] with wn the count Write(b) returned, under wn > 0
@@ -690,6 +700,28 @@ func (x *c03) dischargeSlice(f *ssa.Function, v *ssa.Slice) (string, string) {
 					if sig, okS := p.Type().Underlying().(*types.Signature); okS && sig.Params().Len() == 1 && sig.Results().Len() == 2 && isByteSlice(sig.Params().At(0).Type()) && isErrorType(sig.Results().At(1).Type()) {
 						return "Gwrite: b[wn:] with wn the count the write function handed in returned for b (0 ≤ wn ≤ len(b), io.Writer contract of the wrapped Write)", ""
 					}
+				}
+			}
+		}
+		// Gwrite (peeled loop): b and wn are merges at the same point, and on every incoming edge wn is the count
+		// the write of that edge's b returned
+		if lp, ok := v.Low.(*ssa.Phi); ok {
+			if bp, ok := v.X.(*ssa.Phi); ok && bp.Block() == lp.Block() && len(bp.Edges) == len(lp.Edges) && len(lp.Edges) > 0 {
+				good := true
+				for i := range lp.Edges {
+					ex, isEx := lp.Edges[i].(*ssa.Extract)
+					if !isEx || ex.Index != 0 {
+						good = false
+						break
+					}
+					call, isCall := ex.Tuple.(*ssa.Call)
+					if !isCall || !isTransportWriteInvoke(call) || len(call.Call.Args) < 1 || call.Call.Args[0] != bp.Edges[i] {
+						good = false
+						break
+					}
+				}
+				if good {
+					return "Gwrite: b[wn:] where, on every edge into the merge, wn is the count the write of that edge's b returned (0 ≤ wn ≤ len(b) by the io.Writer contract)", ""
 				}
 			}
 		}
@@ -783,6 +815,26 @@ func (x *c03) allocatesAtLeastParam(g *ssa.Function) bool {
 					continue
 				}
 				if mk.Len == ssa.Value(g.Params[0]) {
+					continue
+				}
+				// make(phi(min, K)): K only on edges reached with min <= K
+				if ph, isPhi := mk.Len.(*ssa.Phi); isPhi {
+					for i, e := range ph.Edges {
+						if e == ssa.Value(g.Params[0]) {
+							continue
+						}
+						pred := ph.Block().Preds[i]
+						under := false
+						for _, gd := range flow.Guards(pred.Instrs[len(pred.Instrs)-1]) {
+							rl, ok := condRel(gd.If.Cond, gd.Taken)
+							if ok && rl.a == ssa.Value(g.Params[0]) && rl.op == token.LEQ && sameVal(rl.b, e) {
+								under = true
+							}
+						}
+						if !under {
+							okAll = false
+						}
+					}
 					continue
 				}
 				// make(K) on the path where min <= K
@@ -906,16 +958,8 @@ func (x *c03) dischargeIndex(f *ssa.Function, in ssa.Instruction, base, idx ssa.
 			}
 		}
 		// Gmake: a buffer made here with length c + (a length), c > k
-		if mk, ok := base.(*ssa.MakeSlice); ok {
-			if bo, ok := mk.Len.(*ssa.BinOp); ok && bo.Op == token.ADD {
-				for _, pr := range [][2]ssa.Value{{bo.X, bo.Y}, {bo.Y, bo.X}} {
-					if cst, ok := flow.ConstInt(pr[0]); ok && cst > k {
-						if _, isLen := builtinOf(pr[1], "len"); isLen {
-							return fmt.Sprintf("Gmake: index %d into a buffer made with length %d + len(…)", k, cst), ""
-						}
-					}
-				}
-			}
+		if cst, ok := madeAtLeast(base); ok && cst > k {
+			return fmt.Sprintf("Gmake: index %d into a buffer made with length %d + len(…)", k, cst), ""
 		}
 		return "", fmt.Sprintf("constant index %d without a dominating length guard", k)
 	}
@@ -930,6 +974,46 @@ func (x *c03) dischargeIndex(f *ssa.Function, in ssa.Instruction, base, idx ssa.
 		}
 	}
 	return "", "variable index without a dominating i < len(b) guard"
+}
+
+// cursorGuardAt: at instruction at, low < len(base) holds by a dominating guard and low is non-negative.
+func (x *c03) cursorGuardAt(at ssa.Instruction, base, low ssa.Value) string {
+	for _, g := range flow.Guards(at) {
+		rl, ok := condRel(g.If.Cond, g.Taken)
+		if !ok {
+			continue
+		}
+		a, isLen := builtinOf(rl.b, "len")
+		if rl.a == low && isLen && a == base && rl.op == token.LSS && x.nn.val(low, 0) {
+			return "G1: b[n:] under the loop condition n < len(b), cursor non-negative (0 plus non-negative increments)"
+		}
+		a2, isLen2 := builtinOf(rl.a, "len")
+		if rl.b == low && isLen2 && a2 == base && rl.op == token.GTR && x.nn.val(low, 0) {
+			return "G1: b[n:] under the loop condition len(b) > n, cursor non-negative"
+		}
+	}
+	return ""
+}
+
+// madeAtLeast: v is a slice made right here with length c, or c + len(…); returns c.
+func madeAtLeast(v ssa.Value) (int64, bool) {
+	mk, ok := v.(*ssa.MakeSlice)
+	if !ok {
+		return 0, false
+	}
+	if c, ok := flow.ConstInt(mk.Len); ok {
+		return c, true
+	}
+	if bo, ok := mk.Len.(*ssa.BinOp); ok && bo.Op == token.ADD {
+		for _, pr := range [][2]ssa.Value{{bo.X, bo.Y}, {bo.Y, bo.X}} {
+			if cst, ok := flow.ConstInt(pr[0]); ok && cst >= 0 {
+				if _, isLen := builtinOf(pr[1], "len"); isLen {
+					return cst, true
+				}
+			}
+		}
+	}
+	return 0, false
 }
 
 // nonEmpty: argument for "v has at least one element at `at`".
